@@ -36,6 +36,10 @@ private:
     size_t max_size_;
 };
 template class LRUCache<int, std::shared_ptr<BaseFftPlanC>>;
+std::shared_ptr<BaseFftPlanC> cached_plan(LRUCache<int, std::shared_ptr<BaseFftPlanC>>& cache, int n) {
+    const auto* hit = cache.find(n);                           // the factory looks plans up through it
+    return (hit != nullptr) ? *hit : nullptr;
+}
 std::shared_ptr<FftPlan> forward_plan(int n) {
     thread_local int last_n = 0;
     thread_local std::shared_ptr<FftPlan> last_plan;            // a private one-entry plan cache
